@@ -11,6 +11,7 @@ fork mode:   units run in real forked worker processes that are parked on a pipe
              worker memory (a snapshot of the parent at pool creation, persisting across
              units) is real.
 """
+import errno
 import math
 import os
 import stat
@@ -339,6 +340,16 @@ class SimPool:
             raise HarnessError("SimPool created outside a simulated case")
         if processes is not None and int(processes) < 1:
             raise ValueError("Number of processes must be at least 1")      # as multiprocessing.Pool does
+        k = getattr(ctx, "pool_fail_at", None)
+        if k is not None and ctx.inject:
+            # fault: the system refuses to start the worker processes (fork: EAGAIN) for the k-th pool from now
+            if k <= 0:
+                ctx.pool_fail_at = None
+                ctx.faults_fired.append((-1, "pool-start", "EAGAIN", "", ctx.actor))
+                ctx.stats["fault.pool-start.EAGAIN"] += 1
+                ctx.ev("fault", "pool-start", "EAGAIN")
+                raise BlockingIOError(errno.EAGAIN, "Resource temporarily unavailable (injected)")
+            ctx.pool_fail_at = k - 1
         self.ctx = ctx
         self.id = ctx.pool_seq
         ctx.pool_seq += 1
@@ -684,6 +695,23 @@ class _AsyncResult:
         self._fire_callbacks()
 
     def ready(self):
+        # an observation point: the workers went on meanwhile.  Before answering, a drawn number (0-2) of
+        # outstanding units of this pool's asynchronous calls complete, in a drawn order - so that two
+        # successive ready() scans of a set of results can see different states, as with a real pool
+        pool = self.pool
+        if not self.call.finished or any(not c.finished for c in pool.calls if getattr(c, "is_async", False)):
+            n = pool.src.draw(f"pool{pool.id}.tick", 0, 2)
+            for _ in range(n):
+                pend = [c for c in pool.calls if getattr(c, "is_async", False) and not c.finished]
+                if not pend or pool.terminated:
+                    break
+                c = pend[pool.src.draw(f"pool{pool.id}.tick.which", 0, len(pend) - 1)] if len(pend) > 1 else pend[0]
+                if not c.step():
+                    if not c.exhausted:
+                        c.pull(None)
+                        c.step()
+                c._finish()
+            pool.ctx.stats["async_ready_polls"] += 1
         return self.call.finished
 
     def successful(self):
